@@ -6,7 +6,7 @@
    which `agree` is true, the rebuild clause of the property holds for the code
    by proof, not only by evaluation. *)
 From Boltons Require Import Lib.Prelude Lib.C08_Py Spec.C08_Spec Model.C08_Model Check.C08_Check
-  Proofs.C08_Machine Proofs.C08_Cycle Proofs.C08_Reraise.
+  Proofs.C08_Machine Proofs.C08_Cycle Proofs.C08_Reraise Proofs.C08_Paths.
 
 Lemma total_mvisit_of : forall pr, total (mvisit_of pr) = visit_of pr.
 Proof. intros [pr|]; reflexivity. Qed.
@@ -65,4 +65,81 @@ Proof.
     rewrite (remap_no_reraise _ true) in H1, H2, H3. rewrite total_mvisit_of in H1, H2, H3.
     rewrite (machine_refines_spec _ true _ Hg) in H1, H2, H3. fold s in H1, H2, H3.
     rewrite H1, H2, H3. reflexivity.
+Qed.
+
+(* ---- research / get_path ---------------------------------------------------- *)
+Lemma oref_eqb_refl : forall r, oref_eqb r r = true.
+Proof. intros [n|i|]; cbn; try apply Nat.eqb_refl; reflexivity. Qed.
+
+Lemma reported_x_in : forall q rr lg l p r, reported_x q rr lg = Ok l -> In (p, r) l ->
+  exists ep ek es, In (EEnter ep ek r es) lg /\ p = ep ++ [ek].
+Proof.
+  intros q rr. induction lg as [|e rest IH]; intros l p r H Hin; cbn [reported_x] in H.
+  - inversion H; subst. inversion Hin.
+  - destruct e as [ep ek er es| |].
+    + destruct (q ep ek es) as [[|]|].
+      * destruct (reported_x q rr rest) as [l'|] eqn:E; [|discriminate]. inversion H; subst.
+        destruct Hin as [Hh|Hin].
+        -- inversion Hh; subst. exists ep, ek, es. split; [left; reflexivity|reflexivity].
+        -- destruct (IH _ _ _ eq_refl Hin) as [a [b [c [H1 H2]]]]. exists a, b, c. split; [right; assumption|assumption].
+      * destruct (IH _ _ _ H Hin) as [a [b [c [H1 H2]]]]. exists a, b, c. split; [right; assumption|assumption].
+      * destruct rr; [discriminate|].
+        destruct (IH _ _ _ H Hin) as [a [b [c [H1 H2]]]]. exists a, b, c. split; [right; assumption|assumption].
+    + destruct (IH _ _ _ H Hin) as [a [b [c [H1 H2]]]]. exists a, b, c. split; [right; assumption|assumption].
+    + destruct (IH _ _ _ H Hin) as [a [b [c [H1 H2]]]]. exists a, b, c. split; [right; assumption|assumption].
+Qed.
+
+(* C08_paths_partial for a query that may raise and any `reraise` *)
+Theorem research_x_paths : forall q rr root l,
+  wf_keys root -> research_x q rr root = Ok l ->
+  forall p r, In (p, r) l -> ~ (p = [KNone] /\ r = oref_of root) ->
+    crosses_set (collect_defs root) root p = false -> get_path root p = Ok r.
+Proof.
+  intros q rr root l Hw Hr p r Hin Hp Hc. unfold research_x in Hr.
+  pose proof (machine_is_recursion None true (collect_defs root) root) as HM. cbn [lift] in HM.
+  rewrite HM in Hr. clear HM. unfold srb_root in Hr.
+  destruct root as [n|id k items|id k|k|id k|w];
+    try (unfold do_visit in Hr;
+         match type of Hr with context [reported_x ?a ?b ?c] => destruct (reported_x a b c) end; discriminate).
+  destruct (srb impl_blank None (collect_defs (ONode id k items)) true [] KNone (ONode id k items) [] [])
+    as [[v m] lg] eqn:E.
+  destruct (reported_x_in _ _ _ _ _ _ Hr Hin) as [ep [ek [es [He ->]]]].
+  destruct (srb_events impl_blank None _ (ONode id k items) Hw true [] KNone [] [] v m lg E _ He)
+    as [[]|[[]|[H|H]]].
+  - inversion H; subst. exfalso. apply Hp. split; reflexivity.
+  - destruct H as [ep' [ek' [er [es' [s [Ee [Hps [Hs [Hx|[c [Hx ->]]]]]]]]]]]; inversion Ee; subst.
+    + cbn [app] in Hps. rewrite Hps in Hc. rewrite (walk_cross _ _ _ Hx) in Hc. discriminate.
+    + cbn [app] in Hps. rewrite Hps. unfold get_path. apply walk_get. assumption.
+Qed.
+
+(* agreement with the model on research implies the paths clause up to the
+   recorded guard: every reported entry is retrievable, or crosses a set *)
+Theorem agree_implies_paths : forall c,
+  wf_keys (c_in c) ->
+  res_eqb (list_eqb rentry_eqb) (model_research c) (c_research c) = true ->
+  match model_research c with
+  | Ok l => forallb (fun e => let '(p, r, g) := e in
+                      retrievable (c_in c) (p, r, got g) || crosses_set (collect_defs (c_in c)) (c_in c) p) l = true
+  | Raise _ => True
+  end.
+Proof.
+  intros c Hw _. unfold model_research.
+  destruct (research_x _ (c_qreraise c) (c_in c)) as [l|e] eqn:E; [|exact I].
+  apply forallb_forall. intros [[p r] g] Hin. apply in_map_iff in Hin as [[p0 r0] [Heq Hin]].
+  cbn [fst snd] in Heq. inversion Heq; subst p0 r0 g. clear Heq.
+  unfold retrievable.
+  destruct (crosses_set (collect_defs (c_in c)) (c_in c) p) eqn:Ec; [apply orb_true_r|].
+  destruct (path_eqb p [KNone] && oref_eqb r (oref_of (c_in c))) eqn:Eb; [reflexivity|].
+  rewrite (research_x_paths _ _ _ _ Hw E p r Hin); [cbn; rewrite oref_eqb_refl; reflexivity| |exact Ec].
+  intros [-> ->]. cbn in Eb. rewrite oref_eqb_refl in Eb. discriminate.
+Qed.
+
+(* agreement on the get_path probes implies the Spec's indexing clause *)
+Theorem agree_implies_probes : forall c, probes_agree c = true -> ok_probes c = true.
+Proof.
+  intros c H. unfold probes_agree, ok_probes in *. rewrite forallb_forall in *.
+  intros [[p g] d] Hin. specialize (H _ Hin). cbn in H. apply andb_true_iff in H as [H1 H2].
+  rewrite H2, andb_true_r. rewrite get_path_is_lookup in H1.
+  destruct (lookup_path (collect_defs (c_in c)) (c_in c) p) as [r|]; destruct g as [r'|e]; cbn in *;
+    try discriminate; try reflexivity; exact H1.
 Qed.
